@@ -5,6 +5,65 @@ package lz4block
 func init() {
 	vfHarnesses["H_compress"] = H_compress
 	vfHarnesses["H_compress_det"] = H_compress_det
+	vfHarnesses["H_compress_hist"] = H_compress_hist
+}
+
+// hSrc builds a source like hSource but with explicit shape parameters and a tag.
+func hSrc(tag string, n, period, tail int) []byte {
+	if period <= 0 || period >= n {
+		return vfBytes(tag, n)
+	}
+	if tail > n-period {
+		tail = n - period
+	}
+	src := make([]byte, 0, n)
+	src = append(src, vfBytes(tag, period)...)
+	for len(src) < n-tail {
+		src = append(src, src[len(src)-period])
+	}
+	return append(src, vfBytes(tag+"t", tail)...)
+}
+
+// H_compress_hist (C14): a real history instead of an assumed prior state. One compressor
+// object first compresses (src0 -> a destination of dl0 bytes, typically too short, so the
+// call fails part-way), then compresses src; the result must equal what a fresh object gives.
+func H_compress_hist() {
+	kind := vfParam("kind") // 0 fast, 3 HC
+	depth := vfParam("depth")
+	src0 := hSrc("a", vfParam("n0"), vfParam("period0"), vfParam("tail0"))
+	src := hSrc("b", vfParam("n"), vfParam("period"), vfParam("tail"))
+	dl := vfParam("dl")
+	if dl < 0 {
+		dl = CompressBlockBound(len(src))
+	}
+	d0 := make([]byte, vfParam("dl0"))
+	d1 := vfBytes("d1", dl)
+	d2 := vfBytes("d2", dl)
+	var m1, m2 int
+	var e1, e2 error
+	if kind == 0 {
+		var c, f Compressor
+		c.CompressBlock(src0, d0)
+		m1, e1 = c.CompressBlock(src, d1)
+		m2, e2 = f.CompressBlock(src, d2)
+	} else {
+		var c, f CompressorHC
+		c.CompressBlock(src0, d0, CompressionLevel(depth))
+		m1, e1 = c.CompressBlock(src, d1, CompressionLevel(depth))
+		m2, e2 = f.CompressBlock(src, d2, CompressionLevel(depth))
+	}
+	vfNote("m1", m1)
+	vfNote("m2", m2)
+	vfAssert("hist-same-count", m1 == m2)
+	vfAssert("hist-same-error", (e1 == nil) == (e2 == nil))
+	k := vfConc(m1)
+	if k >= 0 {
+		if k <= dl {
+			vfAssume(m2 == k)
+			vfAssert("hist-same-bytes", vfEqBytes(d1[:k], d2[:k]))
+		}
+	}
+	vfReach("end")
 }
 
 const hCSpare = 16
@@ -52,7 +111,42 @@ func hRunCompressor(tag string, kind, depth int, src, dst []byte) (int, error) {
 // first period and `tail` symbolic bytes at the end (long runs / periodic data of C10's quantifier).
 func hSource(n int) []byte {
 	period := vfParam("period")
-	if period <= 0 || period >= n {
+	if period < 0 {
+		// literal-run family: -period concrete pairwise-distinct bytes (no 4-byte repeats), then the
+		// same bytes again (a match after a literal run of exactly that length), then `tail`
+		// symbolic bytes
+		l := -period
+		tail := vfParam("tail")
+		src := make([]byte, 0, n)
+		for i := 0; i < l && len(src) < n-tail; i++ {
+			src = append(src, byte((i*37+11)%251))
+		}
+		for i := 0; len(src) < n-tail; i++ {
+			src = append(src, src[i%l])
+		}
+		return append(src, vfBytes("tail", n-len(src))...)
+	}
+	if period >= 60000 {
+		// window family: n bytes of concrete periodic filler; the 8 bytes at position 16 and the
+		// 8 bytes at position 16+period are the same symbolic window (wsym != 0) or the same
+		// concrete window: a repeat at distance exactly `period` (65534..65537).
+		// filler: a 251-byte pattern of distinct bytes repeated, so that one long match (offset
+		// 251) runs up to the second window and the compressor probes exactly there
+		src := make([]byte, n)
+		for i := range src {
+			src[i] = byte(((i % 251) * 37 + 11) % 251)
+		}
+		var w []byte
+		if vfParam("tail") != 0 {
+			w = vfBytes("win", 8)
+		} else {
+			w = []byte{0xA1, 0xB2, 0xC3, 0xD4, 0xE5, 0xF6, 0x07, 0x18}
+		}
+		copy(src[16:], w)
+		copy(src[16+period:], w)
+		return src
+	}
+	if period == 0 || period >= n {
 		return vfBytes("src", n)
 	}
 	tail := vfParam("tail")
